@@ -47,6 +47,7 @@ var droppedPrefixes = []string{
 	"go.opentelemetry.io/otel/trace.Span.", "github.com/ava-labs/avalanchego/trace.Tracer.",
 	"github.com/prometheus/client_golang/prometheus.",
 	"go.opentelemetry.io/otel/attribute.",
+	"github.com/ava-labs/avalanchego/utils/timer.(*Timer).",
 }
 
 func isDroppedKey(key string) bool {
@@ -440,6 +441,9 @@ func (f *Frame) evalBuiltin(name string, call *ast.CallExpr, st *State) []Val {
 	case "panic":
 		// reaching a panic is a safety violation
 		f.safe(st, "panic", call.Pos(), TFalse)
+		return nil
+	case "close":
+		in.note("close(channel): channels are not modelled")
 		return nil
 	case "clear":
 		in.unsupported(call.Pos(), "clear")
